@@ -284,7 +284,8 @@ def generate():
             raise R.Untranslatable('__reUnNumDim group %s: nullable loop' % nm)
     hexs = []
     for nm, r in (('value', V.reHexcolor), ('predef', prodparser.PreDef.reHexcolor)):
-        t = R.translate(r.pattern, r.flags, drop_bol=True)
+        # applied by the model as a full match (Model/Color.v valid_hash), which is what ^...\Z with match() is
+        t = R.translate(r.pattern, r.flags, drop_bol=True, drop_eos=True)
         if R.nullable(t) or R.has_nullable_loop(t):
             raise R.Untranslatable('reHexcolor (%s) nullable' % nm)
         hexs.append((nm, t))
